@@ -410,6 +410,7 @@ fn templates() -> Vec<Target> {
         tr("offset-store-read", 1, "|010203| open-bitstr ! offset u8"),
         tr("input-store-read", 1, "! input u8"),
         t("output-length-store", 1, "! output-length |ff| emit output-length"),
+        tr("offset-store-open-close", 1, "|010203| open-bitstr ! offset |ff| open-bitstr close-bitstr offset u8"),
     ]
 }
 
@@ -640,6 +641,27 @@ fn sweep(cfg: &Cfg, rep: &Reporter, ev_: &mut Evidence, targets: &[Target]) {
                         }
                     }
                 }
+                // ---- the formatting tag with a plain value vs. the same value carrying tags itself: the words that
+                // honour the format must read it alike (tags on tags do not change a value)
+                if tg.fmt_withheld {
+                    let fmt_plain = tms.iter().find(|t| t.is_fmt).unwrap();
+                    let mut m = Xmap::new();
+                    m.insert_mut(Cell::from("#fmt"), Cell::Int(272).with_tags(tms[1].map.clone()));
+                    let fmt_tagged = TagMap { name: "#fmt-value-tagged", src: format!("^{{ 272 {} \"#fmt\" ^}}", tms[1].src), map: m, is_fmt: true };
+                    for i in 0..k {
+                        let v1: Vec<Val> = (0..k).map(|j| if j == i { tagged(tuple[j], fmt_plain) } else { tuple[j].clone() }).collect();
+                        let v2: Vec<Val> = (0..k).map(|j| if j == i { tagged(tuple[j], &fmt_tagged) } else { tuple[j].clone() }).collect();
+                        let c1: Vec<&Cell> = v1.iter().map(|v| &v.cell).collect();
+                        let c2: Vec<&Cell> = v2.iter().map(|v| &v.cell).collect();
+                        let (o1, o2) = (run_case(&base, &c1, &tg.src), run_case(&base, &c2, &tg.src));
+                        st.runs += 2;
+                        if let Some(d) = differ(&o1, &o2) {
+                            rep.report_w(&format!("tag-sensitive:{}:arg{}:fmt-value-tagged", tg.name, k - i), wt(weight0 + 300, &program(&v2)), || {
+                                jo(vec![("kind", js("sweep")), ("what", js("the #fmt tag holds the same number, once plain and once carrying tags itself")), ("program_plain_fmt_value", js(program(&v1))), ("program_tagged_fmt_value", js(program(&v2))), ("difference", js(d.clone())), ("plain", outcome_json(&o1)), ("tagged", outcome_json(&o2))])
+                            });
+                        }
+                    }
+                }
                 // ---- one tagged value in two positions (`dup`: both arguments are the same handle)
                 if k >= 2 && tuple[k - 1].src == tuple[k - 2].src {
                     for tm in tms.iter().filter(|t| t.name == "k:v" || (t.is_fmt && !tg.fmt_withheld)) {
@@ -745,6 +767,7 @@ fn sweep(cfg: &Cfg, rep: &Reporter, ev_: &mut Evidence, targets: &[Target]) {
 #[derive(Clone)]
 enum TOp {
     With(usize),          // index into tag_maps()
+    WithTaggedMap(usize), // the same map, itself carrying tags (tags of the argument do not matter)
     Literal(usize),       // `^{ ... ^}` with the same contents
     Insert(usize, usize), // key index, value index
     Remove(usize),
@@ -765,6 +788,9 @@ fn tag_word_model(cfg: &Cfg, rep: &Reporter, ev_: &mut Evidence, mixed: bool) {
     for i in 0..n_tm {
         ops.push(TOp::With(i));
         ops.push(TOp::Literal(i));
+    }
+    for i in [1usize, 3] {
+        ops.push(TOp::WithTaggedMap(i));
     }
     for k in 0..nkeys {
         for v in 0..NVALS {
@@ -824,6 +850,11 @@ fn tag_word_model(cfg: &Cfg, rep: &Reporter, ev_: &mut Evidence, mixed: bool) {
                         let op = &seq[step - 1];
                         let (word, pre, src): (&str, Vec<Cell>, String) = match op {
                             TOp::With(i) => ("with-tags", vec![Cell::Map(tms[*i].map.clone())], format!("{{ {} }} with-tags", &tms[*i].src[2..tms[*i].src.len() - 2].trim()).replace("{  }", "{ }")),
+                            TOp::WithTaggedMap(i) => (
+                                "with-tags",
+                                vec![Cell::Map(tms[*i].map.clone()).with_tags(tms[1].map.clone())],
+                                format!("{{ {} }} {} with-tags", &tms[*i].src[2..tms[*i].src.len() - 2].trim(), tms[1].src).replace("{  }", "{ }"),
+                            ),
                             TOp::Literal(i) => ("^{", vec![], tms[*i].src.clone()),
                             TOp::Insert(k, v) => ("insert-tag", vec![vals[*v].cell.clone(), keys[*k].cell.clone()], format!("{} {} insert-tag", vals[*v].src, keys[*k].src)),
                             TOp::Remove(k) => ("remove-tag", vec![keys[*k].cell.clone()], format!("{} remove-tag", keys[*k].src)),
@@ -868,7 +899,7 @@ fn tag_word_model(cfg: &Cfg, rep: &Reporter, ev_: &mut Evidence, mixed: bool) {
                         cur = new;
                         // model step
                         match op {
-                            TOp::With(i) | TOp::Literal(i) => model = Some(tms[*i].map.iter().map(|(k, v)| (k.clone(), v.clone())).collect()),
+                            TOp::With(i) | TOp::Literal(i) | TOp::WithTaggedMap(i) => model = Some(tms[*i].map.iter().map(|(k, v)| (k.clone(), v.clone())).collect()),
                             TOp::Insert(k, v) => {
                                 let m = model.get_or_insert_with(Vec::new);
                                 m.retain(|(kk, _)| *kk != keys[*k].cell);
@@ -907,7 +938,7 @@ fn tag_word_model(cfg: &Cfg, rep: &Reporter, ev_: &mut Evidence, mixed: bool) {
                         }
                     }
                     // ---- observers
-                    let word = if step == 0 { "start".to_string() } else { match &seq[step - 1] { TOp::With(_) => "with-tags", TOp::Literal(_) => "^{", TOp::Insert(..) => "insert-tag", TOp::Remove(_) => "remove-tag" }.to_string() };
+                    let word = if step == 0 { "start".to_string() } else { match &seq[step - 1] { TOp::With(_) | TOp::WithTaggedMap(_) => "with-tags", TOp::Literal(_) => "^{", TOp::Insert(..) => "insert-tag", TOp::Remove(_) => "remove-tag" }.to_string() };
                     let entries: Vec<(Cell, Cell)> = model.clone().unwrap_or_default();
                     // the C12 map defect seen through tags: the probe finds the value stored under a key of another type
                     let mixed_key_types = |probe: &Cell, got: &Option<Cell>| {
